@@ -62,6 +62,8 @@ ProtocolOK(ev) == ev.op \in {"Free", "ClearError", "add_compound_data"} \/ ((ev.
 \*         d (live blocks still held after the caller released everything it owns), files]
 MEMORY == 0          \* XRL_ERROR_MEMORY
 ReportsOnly(ev) == ev.scen = "failing_call"         \* a call that fails anyway: the refused request belongs to the error object itself
+\* the compound functions fall back to the NIST catalogue when the parser fails and report what the *last* attempt said: any code of the enumeration is accepted there
+Composite(ev) == ev.scen \in {"cs_total_cp", "refractive_index"}
 FaultKind(ev) ==
   IF ev.sig # 0 \/ ev.status # 0 THEN "died"
   ELSE IF ev.at = 0 THEN (IF (ev.ok = 1 \/ ReportsOnly(ev)) /\ ev.has # 0 /\ (ev.d = 0 \/ ev.bi = 1) /\ ev.files = 0 THEN "" ELSE "broken-without-fault")
@@ -71,7 +73,8 @@ FaultKind(ev) ==
   ELSE IF ev.ok = 1 THEN (IF ev.has = 0 THEN "incomplete-result" ELSE "")           \* the refusal was absorbed (or never reached): the result must be whole
   ELSE IF ev.inj = 0 THEN "failed-without-fault"
   ELSE IF ev.err = 0 THEN "silent-failure"
-  ELSE IF ev.code # MEMORY THEN "wrong-code"
+  ELSE IF ev.code # MEMORY /\ ~Composite(ev) THEN "wrong-code"
+  ELSE IF ~(ev.code >= 0 /\ ev.code <= 5) THEN "wrong-code"
   ELSE IF ev.msg = 0 THEN "error-without-message"
   ELSE IF ev.same = 0 THEN "collection-changed"
   ELSE IF ev.after = 0 THEN "collection-unusable"
